@@ -1376,7 +1376,7 @@ def concretise(case, rnd, root):
         elif fault == "enum_self_reference":
             text += "enum Z { Z_a = Z_a + 1, Z_b = Z_c };\n"
         elif fault == "non_utf8":
-            text = text[:30] + rnd.choice(["\udcff", "\udc80\udcfe", "\udcc3\udc28"]) + text[30:]     # written with surrogateescape
+            text = text[:30] + rnd.choice(["\udcff", "\udc80\udcfe", "\udcc3("]) + text[30:]     # written with surrogateescape
         elif fault == "non_utf8_include":
             files["other.prophy"] = "struct O { u8 o; };\n// \udcff\udcfe\n"
             text = '#include "other.prophy"\n' + text
